@@ -50,6 +50,15 @@ fn is_state(r: &Result<usize, Error>, allowed: &[SP]) -> bool {
     matches!(r, Err(Error::State(s)) if allowed.contains(s))
 }
 
+/// Control for attribution: the same case without its out-of-phase calls (`hs_kept`, `t_kept` hold every call the
+/// model classifies as in phase, failing ones included).
+/// True if that reduced sequence fails as well - then the failure observed in
+/// the full sequence is not an effect of its out-of-phase calls.
+fn control_fails(c: &Case, hs_kept: &[u8], t_kept: &[u8]) -> bool {
+    let ctl = Case { pattern: c.pattern.clone(), psks: c.psks.clone(), initiator: c.initiator, hs_ops: hs_kept.to_vec(), conv: c.conv, t_ops: t_kept.to_vec() };
+    oracle(&ctl, &mut Acc::default()).is_err()
+}
+
 fn oracle(c: &Case, acc: &mut Acc) -> CaseResult {
     let hs = HsName { pattern: c.pattern.clone(), psks: c.psks.clone() };
     let suites = all_suites();
@@ -77,7 +86,21 @@ fn oracle(c: &Case, acc: &mut Acc) -> CaseResult {
     // set once an IN-phase call with invalid arguments has failed: what happens to later valid
     // calls is then C07's business (failed calls are no-ops), not this property's
     let mut inphase_failure = false;
-    let blame = |tainted: bool, msg: String| if tainted { Fail::setup(msg) } else { Fail::new(msg) };
+    // an IN-phase call with valid arguments failed: this property's business if the error is a
+    // state error (the phase was misjudged) or if an out-of-phase call was made before (it was
+    // supposed to have no effect); otherwise an honest step failed for unrelated reasons
+    // (C02/C07's business) and the case is not judged
+    let attribute = |tainted: bool, oop: usize, x: &Error, msg: String, hs_kept: &[u8], t_kept: &[u8]| {
+        if tainted || (oop == 0 && !matches!(x, Error::State(_))) {
+            Fail::setup(msg)
+        } else if !matches!(x, Error::State(_)) && control_fails(c, hs_kept, t_kept) {
+            Fail::setup(format!("{msg} (the same sequence without its out-of-phase calls fails as well: not an effect of those calls)"))
+        } else {
+            Fail::new(msg)
+        }
+    };
+    let mut hs_kept: Vec<u8> = Vec::new();
+    let mut t_kept: Vec<u8> = Vec::new();
     let my_turn_model = |pos: usize| pos < nm && ((pos % 2 == 0) == c.initiator);
     let check_ind = |e: &snow::HandshakeState, pos: usize, step: usize| -> CaseResult {
         ensure!(e.is_handshake_finished() == (pos == nm), "{who}: after step {step}: is_handshake_finished()={} but {pos} of {nm} messages processed", e.is_handshake_finished());
@@ -102,8 +125,9 @@ fn oracle(c: &Case, acc: &mut Acc) -> CaseResult {
                 let mut buf = vec![0u8; if *op == W_OK { 65535 } else { 0 }];
                 let res = e.write_message(&payload, &mut buf);
                 if mine {
+                    hs_kept.push(*op);
                     if *op == W_OK {
-                        let n = res.map_err(|x| blame(inphase_failure, format!("{who}: step {step}: in-turn write failed: {x:?}")))?;
+                        let n = res.map_err(|x| attribute(inphase_failure, out_of_phase, &x, format!("{who}: step {step}: in-turn write failed: {x:?}"), &hs_kept, &[]))?;
                         let msg = buf[..n].to_vec();
                         let mut pb = vec![0u8; 65535];
                         // whether the peer accepts the bytes is C01/C02/C07's business
@@ -136,8 +160,9 @@ fn oracle(c: &Case, acc: &mut Acc) -> CaseResult {
                 let mut buf = vec![0u8; 65535];
                 let res = e.read_message(&msg, &mut buf);
                 if expecting_read {
+                    hs_kept.push(*op);
                     if *op == R_GENUINE {
-                        let n = res.map_err(|x| blame(inphase_failure, format!("{who}: step {step}: read of the genuine next message failed: {x:?}")))?;
+                        let n = res.map_err(|x| attribute(inphase_failure, out_of_phase, &x, format!("{who}: step {step}: read of the genuine next message failed: {x:?}"), &hs_kept, &[]))?;
                         ensure!(buf[..n] == spec.payload(pos, 4)[..], "{who}: step {step}: payload differs");
                         last_from_peer = Some(msg.clone());
                         last_any = Some(msg);
@@ -195,7 +220,8 @@ fn oracle(c: &Case, acc: &mut Acc) -> CaseResult {
                             T::L(t) => t.write_message(nw, b"abc", &mut buf),
                         };
                         if can_write {
-                            let n = res.map_err(|x| Fail::new(format!("{who}: transport step {k}: write failed: {x:?}")))?;
+                            t_kept.push(T_WRITE);
+                            let n = res.map_err(|x| attribute(false, out_of_phase, &x, format!("{who}: transport step {k}: write failed: {x:?}"), &hs_kept, &t_kept))?;
                             nw += 1;
                             let mut pb = vec![0u8; 64];
                             let l = pt.read_message(&buf[..n], &mut pb).map_err(|x| Fail::setup(format!("{who}: transport step {k}: the peer rejects the written message: {x:?}")))?;
@@ -218,11 +244,14 @@ fn oracle(c: &Case, acc: &mut Acc) -> CaseResult {
                             T::F(t) => t.read_message(&msg, &mut buf),
                             T::L(t) => t.read_message(nr, &msg, &mut buf),
                         };
+                        if can_read {
+                            t_kept.push(*op);
+                        }
                         if !can_read {
                             out_of_phase += 1;
                             ensure!(res == Err(Error::State(SP::OneWay)), "{who}: transport step {k}: one-way initiator read returned {res:?}, expected Err(State(OneWay))");
                         } else if *op == T_READ {
-                            let n = res.map_err(|x| Fail::new(format!("{who}: transport step {k}: genuine message rejected: {x:?}")))?;
+                            let n = res.map_err(|x| attribute(false, out_of_phase, &x, format!("{who}: transport step {k}: genuine message rejected: {x:?}"), &hs_kept, &t_kept))?;
                             ensure!(&buf[..n] == b"xyz", "{who}: transport payload");
                             nr += 1;
                         } else {
@@ -230,6 +259,7 @@ fn oracle(c: &Case, acc: &mut Acc) -> CaseResult {
                         }
                     },
                     T_REKEY_MANUAL => {
+                        t_kept.push(T_REKEY_MANUAL);
                         let (k1, k2) = ([0x11u8; 32], [0x22u8; 32]);
                         match &mut et {
                             T::F(t) => t.rekey_manually(Some(&k1), Some(&k2)),
@@ -238,6 +268,7 @@ fn oracle(c: &Case, acc: &mut Acc) -> CaseResult {
                         pt.rekey_manually(Some(&k1), Some(&k2));
                     },
                     T_REKEY_AUTO => {
+                        t_kept.push(T_REKEY_AUTO);
                         match &mut et {
                             T::F(t) => {
                                 t.rekey_outgoing();
